@@ -290,7 +290,8 @@ Proof.
     destruct (r_cancel (getr s r)); [|discriminate]. inversion H; subst; clear H; ref_leaf Inv.
   - destruct (r_mu (getr s r)); [discriminate|].
     destruct (r_stop (getr s r)); inversion H; subst; clear H; simpl; ref_leaf Inv.
-  - destruct (r_clock (getr s r)); [discriminate|]. inversion H; subst; clear H. simpl. ref_leaf Inv.
+  - destruct (Nat.eqb arg 1); [destruct (r_cancel (getr s r)); [|discriminate] | destruct (r_clock (getr s r)); [discriminate|]];
+      inversion H; subst; clear H; simpl; ref_leaf Inv.
   - destruct ks as [|k ks'].
     + inversion H; subst; clear H. simpl. ref_leaf Inv.
     + destruct (memb arg (k :: ks')); [|discriminate].
